@@ -9,12 +9,19 @@ import sys
 from concurrent.futures import ThreadPoolExecutor
 
 ROOT = os.path.dirname(os.path.dirname(os.path.abspath(__file__)))
-CROSS = {"C01-5": ["C09"], "C02-2": ["C20"], "C02-5": ["C20"], "C08-4": ["C05", "C12"], "C08-5": ["C07"]}
+CROSS = {
+    "C01-5": ["C09"], "C02-2": ["C20"], "C02-5": ["C20"], "C08-4": ["C05", "C12"], "C08-5": ["C07"],
+    "C02-7": ["C09"], "C13-8": ["C18"], "C08-6": ["C04"], "C08-7": ["C18"], "C08-8": ["C07"],
+    "C06-6": ["C07:thorough"],
+}
 
 
 def run(name, check):
+    tier = "quick"
+    if ":" in check:
+        check, tier = check.split(":")
     out = subprocess.run(
-        [os.path.join(ROOT, "tools", "run_seeded.sh"), name, check, "quick"],
+        [os.path.join(ROOT, "tools", "run_seeded.sh"), name, check, tier],
         capture_output=True, text=True, env=dict(os.environ, SAVE_REPLAY="1"),
     ).stdout
     clause = ""
@@ -22,7 +29,7 @@ def run(name, check):
         if line.startswith("["):
             clause = line.split("]")[0] + "]"
     code = out.strip().splitlines()[-1].split("exit=")[-1] if out.strip() else "?"
-    return name, check, code, clause
+    return name, check + ("" if tier == "quick" else " (thorough)"), code, clause
 
 
 names = sorted(os.listdir(os.path.join(ROOT, "seeded")))
